@@ -25,7 +25,10 @@ def nontrivial(res):
     return st.get('entries_consumed', 0) > 0 and (st.get('faults_hit', 0) > 0 or st.get('append_err', 0) + st.get('batch_err', 0) > 0)
 
 def trig(f, res):
-    return ['faulthit:' + k.split(':', 1)[1] for k in res['stats'] if k.startswith('fault_hit:')]
+    t = ['faulthit:' + k.split(':', 1)[1] for k in res['stats'] if k.startswith('fault_hit:')]
+    if (f.get('ctx') or {}).get('restarted'):
+        t.append('ctx:restarted')     # the finding was observed on an instance that had been reopened at least once
+    return t
 
 def run(tier, seed, budget):
     rep = seqfam.run_family('C04', tier, seed, budget, PROFILE, KINDS, n_quick=120, n_thorough=5000, rule=RULE,
